@@ -99,6 +99,7 @@ BENIGN = [
     ('b33-comment-between-doc-and-fn', 'src/f32/vec2.rs', '/// Panics if `slice` is less than 2 elements long.\n    #[inline]\n    #[must_use]\n    pub const fn from_slice', '/// Panics if `slice` is less than 2 elements long.\n    // NOTE: const since 0.25.\n    #[inline]\n    #[must_use]\n    pub const fn from_slice', ['C18', 'C20'], 'a plain comment between rustdoc and attributes'),
     ('b34-doc-says-never-panics', 'src/f64/dvec2.rs', '    #[inline]\n    #[must_use]\n    pub fn normalize_or_zero(self) -> Self {', '    ///\n    /// Unlike [`Self::normalize`], this function will never panic, even when `glam_assert` is enabled.\n    #[inline]\n    #[must_use]\n    pub fn normalize_or_zero(self) -> Self {', ['C20'], 'rustdoc sentence saying the function never panics'),
     ('b35-look-to-doc-rewrapped', 'src/f32/sse2/mat4.rs', '/// Will panic if `dir` or `up` are not normalized when `glam_assert` is enabled.\n    #[inline]\n    #[must_use]\n    pub fn look_to_rh(', '/// Will panic if `dir` or `up` are not\n    /// normalized when `glam_assert` is enabled.\n    #[inline]\n    #[must_use]\n    pub fn look_to_rh(', ['C20', 'C11'], 'panic sentence wrapped over two doc lines'),
+    ('b36-serde-visitor-match', 'src/features/impl_serde.rs', 'let x = seq\n                            .next_element()?\n                            .ok_or_else(|| de::Error::invalid_length(0, &self))?;\n                        let y = seq\n                            .next_element()?\n                            .ok_or_else(|| de::Error::invalid_length(1, &self))?;\n                        Ok($vec2::new(x, y))', 'let x = match seq.next_element()? {\n                            Some(x) => x,\n                            None => return Err(de::Error::invalid_length(0, &self)),\n                        };\n                        let y = match seq.next_element()? {\n                            Some(y) => y,\n                            None => return Err(de::Error::invalid_length(1, &self)),\n                        };\n                        Ok($vec2::new(x, y))', ['C19'], 'serde visitor written with match'),
     ('b09-cross-operand-order', 'src/f32/vec3.rs', 'x: self.y * rhs.z - rhs.y * self.z,', 'x: self.y * rhs.z - self.z * rhs.y,', ['C02', 'C03', 'C07', 'C11'], 'commuted product inside cross'),
 ]
 
